@@ -988,3 +988,19 @@ Proof.
 Qed.
 
 End Statements.
+
+Print Assumptions comp_store_extract.
+Print Assumptions to_local_lab_index.
+Print Assumptions to_global_lab_nth.
+Print Assumptions glue_lab_spec.
+Print Assumptions comp_stores_exist.
+Print Assumptions reachable_labels_distinct.
+Print Assumptions all_comps_model.
+Print Assumptions merged_comps_model.
+Print Assumptions label_route_component.
+Print Assumptions label_route_panic.
+Print Assumptions label_route_local.
+Print Assumptions label_route_global.
+Print Assumptions label_route_answer.
+Print Assumptions label_route_model_components.
+Print Assumptions answers_in_callers_arguments.
